@@ -147,23 +147,51 @@ def _model_text(model):
 
 
 def _try_cvc5(theory, ob, timeout_ms):
-    """Second back end for queries z3 leaves unknown."""
+    """Second back end for queries z3 leaves unknown (finite model finding decides the `sat` ones)."""
     import subprocess
     import tempfile
-    try:
-        smt = core.to_smt2(theory, ob, with_known=False if ob.known else None)
+
+    def ask(with_known):
+        smt = core.to_smt2(theory, ob, with_known=with_known)
         with tempfile.NamedTemporaryFile("w", suffix=".smt2", delete=False) as fh:
             fh.write("(set-logic ALL)\n" + smt)
             path = fh.name
-        t0 = time.time()
-        p = subprocess.run(["/usr/bin/cvc5", "--finite-model-find", "--tlimit=%d" % timeout_ms, path],
-                           capture_output=True, text=True, timeout=timeout_ms / 1000 + 5)
-        os.unlink(path)
-        ans = p.stdout.strip().splitlines()[0] if p.stdout.strip() else ""
-        if ans == "unsat" and not ob.known:
-            ob.verdict = "proved"
-            ob.backend = "cvc5-1.0.3"
-            ob.seconds += time.time() - t0
+        try:
+            p = subprocess.run(["/usr/bin/cvc5", "--finite-model-find", "--tlimit=%d" % timeout_ms, path],
+                               capture_output=True, text=True, timeout=timeout_ms / 1000 + 5)
+            out = p.stdout.strip().splitlines()
+            return out[0] if out else ""
+        except Exception:
+            return ""
+        finally:
+            os.unlink(path)
+    t0 = time.time()
+    try:
+        if not ob.known:
+            ans = ask(None)
+            if ans == "unsat":
+                ob.verdict = "proved"
+            elif ans == "sat":
+                ob.verdict = "refuted"
+            else:
+                return
+        else:
+            ans = ask(False)
+            if ans == "sat":
+                ob.verdict = "refuted"
+            elif ans == "unsat":
+                ans2 = ask(True)
+                if ans2 == "sat":
+                    ob.verdict = "known"
+                    ob.finding = "+".join(f for f, _ in ob.known)
+                elif ans2 == "unsat":
+                    ob.verdict = "proved"
+                else:
+                    return
+            else:
+                return
+        ob.backend = "cvc5-1.0.3 (after z3 unknown)"
+        ob.seconds += time.time() - t0
     except Exception:
         pass
 
